@@ -71,6 +71,12 @@ def src_limits():
     for k, nm in enumerate(["en_au", "zh_CN", "sr_Latn", "EN", "en-AU", "en_", "fr-", "en-lol ", "e n"]):
         out.append((f"unknown-dialect:{k}", f"# language: {nm}\nFeature: f\n  Scenario: s\n    Given x\n", "en"))
         out.append((f"unknown-dialect-indented:{k}", " " * (k + 1) + f"# language: {nm}\n\t# language: xx\nFeature: f\n  Scenario: s\n    Given x\n", "en"))
+    # unexpected lines that are long or contain formatting characters (they are quoted in the error message)
+    for k, junk in enumerate(["q" * 300, "w" * 1000, "100% of {0} and %s %d", "back\\slash \\1 \\g<0>", "'quoted' \"double\"", "tab\tinside\tline  "]):
+        out.append((f"odd-unexpected-line:{k}", f"Feature: f\n  Scenario: s\n    Given x\n      | a |\n{junk}\n    Then y\n", "en"))
+    # the same row text twice at different indentation; a header after blank / comment lines
+    out.append(("same-row-twice", "Feature: f\n  Scenario: s\n    Given x\n      | a | b |\n    | a | b |\n\t| a | b |\n    When y\n  | a | b |\n      | a | b |\n", "en"))
+    out.append(("header-after-blank", "\n# c\n\n# language: fr\nFonctionnalité: f\n  Scénario: s\n    Soit x\n", "en"))
     # one physical line longer than any buffer; identical tag lines at different indentation; a byte-order mark as first character
     out.append(("long-lines", "Feature: f\n  " + "x" * 70000 + "\n  Scenario: s\n    Given " + "y" * 70000 + "\n", "en"))
     out.append(("same-tag-line-twice", "  @a @b\nFeature: f\n      @a @b\n  Scenario: s\n\t@a @b\n  Scenario: t\n", "en"))
@@ -213,15 +219,25 @@ def reuse_pass(rep: Reporter, sources, label: str = "reuse", default: str = "en"
     from gherkin.ast_builder import AstBuilder
     from gherkin.token_matcher import TokenMatcher
     from gherkin.stream.id_generator import IdGenerator
+    import copy
     idg = IdGenerator()
     parser, matcher = Parser(AstBuilder(idg)), TokenMatcher(default)
     n = 0
+    kept = []
     for name, s, d in sources:
         if d != default or known_finding_input(s):
             continue
         n += 1
         idg._id_counter = 0
-        reused, _ = S.outcome(lambda: parser.parse(s, matcher))
+        reused, doc = S.outcome(lambda: parser.parse(s, matcher))
+        for obj, snap, nm in kept[-3:]:
+            if obj != snap:
+                rep.violation({"kind": "earlier-result-changed"}, {"engine": "reuse", "what": "the document returned for an earlier source changed when a later one was parsed",
+                                                                   "earlier": nm, "source": s})
+                kept = []
+                break
+        if doc is not None:
+            kept.append((doc, copy.deepcopy(doc), name))
         fresh, _ = S.outcome(lambda: Parser(AstBuilder(IdGenerator())).parse(s, TokenMatcher(default)))
         rep.case((label, name))
         if reused != fresh:
